@@ -900,6 +900,7 @@ func runPath(c pcase) (key, msg string, names []string) {
 
 func main() {
 	h := hx.New("C07")
+	registerConcurrentWriters(h)
 	bs := builders()
 	var order []string
 	for n := range bs {
